@@ -26,6 +26,10 @@ type em struct {
 	want     types.Type            // expected type for an untyped nil
 	inCond   int                   // > 0 inside the right operand of && / ||: no assignments can be hoisted
 	nilNames map[*types.Var]string // *big.Float parameters compared with nil: name of "the argument was nil"
+	// fmt layer (fmtstate.go): signature of the function literal being translated (its `return`s),
+	// and > 0 while a term is built whose hoisted binds are joined on one line (no multi-line binds)
+	closSig    *types.Signature
+	inCaptured int
 }
 
 func isNilIdent(x ast.Expr) bool {
@@ -148,7 +152,9 @@ func balancedOuter(s string) bool {
 func (e *em) captured(f func() string) (string, []string) {
 	save := e.pre
 	e.pre = nil
+	e.inCaptured++
 	term := f()
+	e.inCaptured--
 	got := e.pre
 	e.pre = save
 	return term, got
@@ -173,6 +179,9 @@ func (e *em) expr(x ast.Expr) string {
 	case *ast.SelectorExpr:
 		if sel, ok := T.info.Selections[x]; ok && sel.Kind() == types.FieldVal {
 			return paren(e.expr(x.X)) + "." + safeIdent(x.Sel.Name)
+		}
+		if c, _, ok := foreignErrVar(x); ok {
+			return "Go.Err." + c // io.EOF, io.ErrUnexpectedEOF (fmtstate.go)
 		}
 		e.fail(x, "selector")
 	case *ast.StarExpr:
@@ -488,6 +497,18 @@ func (e *em) complit(x *ast.CompositeLit) string {
 			e.fail(x, "short array literal")
 		}
 		return "(#v[" + strings.Join(parts, ", ") + "] : " + leanType(t) + ")"
+	case *types.Slice:
+		// []byte{…} (fmt layer: the package variable spaceText)
+		if isByteSliceLit(x) {
+			var parts []string
+			for _, el := range x.Elts {
+				if _, ok := el.(*ast.KeyValueExpr); ok {
+					e.fail(x, "keyed slice literal")
+				}
+				parts = append(parts, e.exprTyped(el, u.Elem()))
+			}
+			return "(#[" + strings.Join(parts, ", ") + "] : Go.Bytes)"
+		}
 	}
 	e.fail(x, "composite literal of %v", t)
 	return ""
@@ -553,6 +574,10 @@ func (e *em) callParts(x *ast.CallExpr) (*fn, []string, []ast.Expr) {
 				}
 				inoutExprs = append(inoutExprs, a)
 			}
+			// a fmt.State / fmt.ScanState argument (a variable: analyseFmt) gets the callee's final state
+			if _, ok := fmtIface(sig.Params().At(i).Type()); ok {
+				inoutExprs = append(inoutExprs, a)
+			}
 		}
 		if i < sig.Params().Len() {
 			args = append(args, paren(e.exprAs(a, sig.Params().At(i).Type())))
@@ -571,6 +596,9 @@ func (e *em) call(x *ast.CallExpr) string {
 		return e.convert(x)
 	}
 	if r, ok := e.bigCall(x); ok {
+		return r
+	}
+	if r, ok := e.fmtCall(x); ok {
 		return r
 	}
 	switch f := x.Fun.(type) {
